@@ -12,6 +12,7 @@ Section DapSpec.
   Variable fin : cpu -> bool.
   Variable step_over : cpu -> cpu.
   Variable step_out : cpu -> cpu.
+  Variable reset_lcp : bool.
 
   Notation st := (st cpu).
 
@@ -78,7 +79,7 @@ Section DapSpec.
     match tr with
     | [] => true
     | a :: tr' =>
-        match step_act cpu pc step fin step_over step_out p a s with
+        match step_act cpu pc step fin step_over step_out reset_lcp p a s with
         | None => true
         | Some (s', _) =>
             let violated := match a with
@@ -98,7 +99,7 @@ Section DapSpec.
     match tr with
     | [] => true
     | a :: tr' =>
-        match step_act cpu pc step fin step_over step_out p a s with
+        match step_act cpu pc step fin step_over step_out reset_lcp p a s with
         | None => true
         | Some (s', _) =>
             match a with
